@@ -32,6 +32,16 @@ LIBTOKENS = ["{{ts}}", "{{te}}", "{{li}}", "{{hd}}", "{{ar|", "{{dv}}", "{{row}}
              "</div>", "'''", "[[", "]]", "{{{1|", "}}}", "<pre>", "|-"]
 MODES = [{}, {"pre_expand": True}, {"expand_all": True}, {"additional_expand": ["ts", "li"]}]
 
+# focused alphabets explored to a greater length (k <= 5): one per syntax family
+FOCUS = {
+    "links": ["[http://x.y", "[", "]", " ", ":", "a", "http://x.y", "<nowiki/>", "|", "[[", "]]"],
+    "tables": ["{|", "|}", "|-", "|", "||", "!", "!!", "\n", "a", "|+", " ", "x=1"],
+    "lists": ["*", "#", ":", ";", "\n", "a", " ", "''", "<b>", "</b>", "{{", "}}"],
+    "html": ["<b>", "</b>", "<div>", "</div>", "<li>", "<br>", "<ref>", "</ref>", "\n", "a", "<pre>", "</pre>"],
+    "calls": ["{{", "}}", "{{{", "}}}", "|", "=", "a", ":", "#if:", "\n", "[[", "]]"],
+    "headings": ["==", "=", "===", "\n", "a", " ", "<pre>", "</pre>", "''", "{{", "}}", "----"],
+}
+
 TOWERS = [
     ("''", "''"), ("'''", "'''"), ("[[a|", "]]"), ("{{a|", "}}"), ("{{{a|", "}}}"), ("<b>", "</b>"),
     ("<div>", "</div>"), ("<span>", "</span>"), ("{|\n|", "\n|}"), ("*", ""), ("<ref>", "</ref>"),
@@ -101,7 +111,7 @@ def work(payload, skip, report):
     kind = payload[0]
     if kind == "tok":
         _, alpha, prefix, depth, lib, modes = payload
-        alphabet = {"T": TOKENS, "C": CORE, "L": LIBTOKENS}[alpha]
+        alphabet = FOCUS[alpha[2:]] if alpha.startswith("F:") else {"T": TOKENS, "C": CORE, "L": LIBTOKENS}[alpha]
         ctx = make_ctx(lib)
         i = 0
         for rest in itertools.product(alphabet, repeat=depth - len(prefix)):
@@ -212,6 +222,14 @@ def main(run):
         for t1 in CORE[:30]:
             for t2 in CORE[:30]:
                 chunks.append(("tok", "C", (t1, t2), 5, False, [{}]))
+    # (a2) focused alphabets, k = 4 and 5
+    for name, alpha in FOCUS.items():
+        for t in alpha:
+            chunks.append(("tok", "F:" + name, (t,), 4, False, [{}]))
+            chunks.append(("tok", "F:" + name, (t,), 5, False, [{}]))
+            if not q:
+                for t2 in alpha:
+                    chunks.append(("tok", "F:" + name, (t, t2), 6, False, [{}]))
     # (b) with template library under the expansion modes
     for t in LIBTOKENS:
         chunks.append(("tok", "L", (t,), 3, True, MODES))
@@ -242,11 +260,12 @@ def main(run):
     nk = len(run.acc.sets.pop("kinds", ()))
     cov = {
         "distinct_nontrivial": len(run.acc.sets.get("shapes", ())),
-        "rule": "every string t1..tk over the %d-token alphabet T for k<=%s (and k=%s over a %d-token core); every k<=%s string over "
+        "rule": "every string t1..tk over the %d-token alphabet T for k<=%s (and k=%s over a %d-token core); every string of 4..%s tokens over each of %d focused "
+                "12-token alphabets (links, tables, lists, html, calls, headings); every k<=%s string over "
                 "a %d-token alphabet with calls to 7 structural templates under %d expansion modes; towers open^d x close^d, "
                 "unclosed and over-closed for %d nestable constructs and every d in 1..100%s. Non-trivial = distinct tree skeleton "
                 "(kinds + nesting, text ignored) with >= 3 node kinds."
-                % (len(TOKENS), "3" if q else "4", "4" if q else "5", 24 if q else 30, "3" if q else "4", len(LIBTOKENS),
+                % (len(TOKENS), "3" if q else "4", "4" if q else "5", 24 if q else 30, "5" if q else "6", len(FOCUS), "3" if q else "4", len(LIBTOKENS),
                    len(MODES), len(TOWERS), "" if q else "; every single-token deletion at every position of the 3 real pages in /repo/tests, every insertion of "
                    "9 structural tokens at every token boundary of fi-gradation.txt and of 3 structural tokens at every boundary of the other two"),
         "node_kinds_seen": nk,
